@@ -12,7 +12,7 @@ def classify(rec, v):
 def run(out, tier):
     wd = common.workdir("c04")
     try:
-        recs, texts, verdicts = render.run_render(out, "C04", "stroke", tier, 420, 12000, wd=wd, max_nodes=5,
+        recs, texts, verdicts = render.run_render(out, "C04", "stroke", tier, 420, 1500, wd=wd, max_nodes=5,
                                                   module="TraceStroke", cfg="TraceStroke.cfg")
         cov = out.coverage
         cov["distinct_nontrivial"] = cov["parts"]["verdict_histogram"].get("ok:stroke", 0)
